@@ -10,7 +10,7 @@ from mc.util import call, raised
 ID = "C18"
 LEVEL = "model_checking"
 RULE = (
-    "Exhaustive product: grid shape (n_n, n_e) in {1..3}x{1..4} x non-uniform increasing axis vectors x coordinate form {1-D axes, "
+    "Exhaustive product: grid shape (n_n, n_e) in {1..3}x{1..4} x non-uniform axis vectors (increasing, decreasing, unsorted) x coordinate form {1-D axes, "
     "2-D meshgrid, 2-D non-meshgrid (must raise), mixed 1-D/2-D (must raise)} x 0..4 data variables x 0..3 extra coordinates x "
     "dims {default, custom} x name-count mismatches (must raise) for make_xarray_grid; grid_to_table on the Dataset just built, "
     "on named / unnamed DataArrays, with coordinates declared in either order, integer and float values; meshgrid_to_1d / "
@@ -39,6 +39,9 @@ def cases(tier, seed):
                                 if dt == "int" and (nx or dims == "custom"):
                                     continue
                                 yield dict(kind="grid", nn=nn, ne=ne, form=form, nd=nd, nx=nx, dims=dims, dtype=dt)
+            for form in ("1d", "2d"):
+                for order in ("desc_n", "desc_e", "desc_both", "unsorted"):
+                    yield dict(kind="grid", nn=nn, ne=ne, form=form, nd=2, nx=1, dims="default", dtype="float", order=order)
             for bad in ("non_meshgrid_e", "non_meshgrid_n", "mixed", "names_short", "names_long", "extra_names_short",
                         "extra_names_none", "data_names_none"):
                 yield dict(kind="invalid", nn=max(nn, 2), ne=max(ne, 2), bad=bad)
@@ -62,6 +65,13 @@ def run(case, rec):
     kind = case["kind"]
     nn, ne = case["nn"], case["ne"]
     east, north = np.array(EAST[:ne]), np.array(NORTH[:nn])
+    order = case.get("order")
+    if order in ("desc_n", "desc_both"):
+        north = north[::-1].copy()
+    if order in ("desc_e", "desc_both"):
+        east = east[::-1].copy()
+    if order == "unsorted":
+        east, north = np.roll(east, 1), np.roll(north, 1)
     e2, n2 = np.meshgrid(east, north)
     if kind == "grid":
         nd, nx, dt = case["nd"], case["nx"], case["dtype"]
